@@ -980,11 +980,11 @@ class Engine:
             return NotImplemented
         # --- formatting / logging: no semantic effect tracked, keep argument origins for data-flow checks ---
         if c.endswith("Argument::new_display") or c.endswith("Argument::new_debug") or c.endswith("Argument::new_lower_hex"):
-            return Agg("fmt::Argument", [args[0]], kind="struct")
+            return Agg("fmt::Argument", [self.peel(args[0])], kind="struct")
         if re.search(r"Arguments::new(_const|_v1)?$", c) or c.endswith("Arguments::from_str"):
-            return Agg("fmt::Arguments", list(args), kind="struct")
+            return Agg("fmt::Arguments", [self.peel(a) for a in args], kind="struct")
         if c in ("std::fmt::format", "format", "alloc::fmt::format") or c.endswith("fmt::format"):
-            return Agg("fmt::Formatted", list(args), kind="struct")
+            return Agg("fmt::Formatted", [self.peel(a) for a in args], kind="struct")
         return NotImplemented
 
     def peel(self, v):
